@@ -131,6 +131,10 @@ def run(ctx, info):
         jobs.append({"opt": nm, "cfg": {"population_size": P0, "max_cycles": 4, "fitness_error": None}, "task": search.cont_task(obj=r.choice(["const", "step"]), seed=r.randint(0, 10**6), dim=2)})
         jobs.append({"opt": nm, "cfg": {"population_size": P0, "max_cycles": 4, "fitness_error": None},
                      "task": {"vars": [("binary", 6)], "obj": "abs", "minmax": r.choice(["min", "max"]), "seed": r.randint(0, 10**6)}})
+        # a search space with FEWER distinct positions than agents: the population necessarily holds duplicates (a merge / dedup by position must not shrink it)
+        jobs.append({"opt": nm, "cfg": {"population_size": P0, "max_cycles": 4, "fitness_error": None},
+                     "task": {"vars": r.choice([[("binary", 3)], [("discmulti", [2, 2])], [("binary", 2), ("disc", 2)]]), "obj": r.choice(["abs", "linear"]),
+                              "minmax": r.choice(["min", "max"]), "seed": r.randint(0, 10**6)}})
     # HyperTuner style: an instance that already ran with ANOTHER population size is reconfigured and run again: every recorded generation has the NEW size
     for nm in (search.all_names() if not ctx.quick else sorted(by_design) + irregular + r.sample(regular_now, 10)):
         P0 = search.fixture_scale(nm)["population_size"]
